@@ -96,6 +96,9 @@ struct W1 {
         // who points at whom
         std::map<std::pair<int, int>, int> pointed;   // target -> count
         for (size_t i = 0; i < snap.size(); i++) for (size_t k = 0; k < snap[i].n.size(); k++) if (snap[i].n[k].cpl_cell >= 0) pointed[{snap[i].n[k].cpl_cell, snap[i].n[k].cpl_node}]++;
+        { std::map<std::pair<int, int>, std::set<int>> writers;   // node of a lower-index cell <- cells whose integration thread moves it
+          for (size_t i = 0; i < snap.size(); i++) for (size_t k = 0; k < snap[i].n.size(); k++) if (snap[i].n[k].cpl_cell >= 0 && snap[i].n[k].cpl_cell < (int)i) writers[{snap[i].n[k].cpl_cell, snap[i].n[k].cpl_node}].insert((int)i);
+          for (auto& w : writers) if (w.second.size() >= 2) { res.probes.hit("node_integrated_by_two_cells"); break; } }
         for (size_t i = 0; i < snap.size(); i++) {
             auto& N = cell_tester::nodes(*L[i]); const CellSnap& cs = snap[i];
             for (size_t k = 0; k < cs.n.size(); k++) {
